@@ -114,9 +114,25 @@ LEAVES = ["cma", "cmastd", "local", "sea", "de", "shade"]
 MIDS = ["sea", "de", "shade"]
 
 
+HANDCRAFTED = [
+    dict(kinds=["sea", "de", "cma"], objective="funnels", box="sym2", maximize=False, generations=2, leaf_generations=2, sprout="simple",
+         level_limit=3, gsc="metaepoch", gsc_n=22, lsc="metaepoch", hibernation=True, wrap="none"),
+    dict(kinds=["de", "sea", "cma"], objective="funnels", box="sym2", maximize=False, generations=1, leaf_generations=2, sprout="nbc",
+         level_limit=2, gsc="metaepoch", gsc_n=18, lsc="metaepoch", hibernation=True, wrap="counting"),
+    dict(kinds=["shade", "cma"], objective="plateau", box="sym2", maximize=True, generations=3, leaf_generations=2, sprout="nbc",
+         level_limit=2, gsc="metaepoch", gsc_n=6, lsc="dontstop", hibernation=False, wrap="none"),
+    dict(kinds=["sea", "cma"], objective="sphere", box="asym2", maximize=False, generations=1, leaf_generations=4, sprout="nbc",
+         level_limit=3, gsc="evals", gsc_n=5, lsc="metaepoch", hibernation=False, wrap="cutoff"),
+    dict(kinds=["shade", "de", "local"], objective="plateau", box="dec3", maximize=True, generations=2, leaf_generations=2, sprout="nbc_multi",
+         level_limit=2, gsc="metaepoch", gsc_n=8, lsc="metaepoch", hibernation=False, wrap="counting"),
+]
+
+
 def scenarios(seed, tier):
     rng = random.Random(seed)
     out = []
+    for k, h in enumerate(HANDCRAFTED):
+        out.append(dict(h, id=100 + k, seed=1000 * seed + 7 + k))
     n = 14 if tier == "quick" else 60
     for i in range(n):
         nlev = rng.choice([1, 2, 2, 2, 3, 3])
@@ -133,7 +149,7 @@ def scenarios(seed, tier):
             sprout=rng.choice(["simple", "nbc", "nbc", "nbc_multi"]), level_limit=rng.choice([1, 2, 3]),
             gsc=rng.choice(["metaepoch", "metaepoch", "evals", "evals_w", "allstopped", "rootstopped", "nonroot"]),
             gsc_n=rng.choice([3, 5, 7]), lsc=rng.choice(["dontstop", "metaepoch", "metaepoch", "children", "steady"]),
-            hibernation=rng.random() < 0.4, seed=rng.randrange(10 ** 6)))
+            hibernation=rng.random() < 0.4, seed=rng.randrange(10 ** 6), wrap=rng.choice(["none", "none", "counting", "cutoff"])))
     return out
 
 
@@ -142,6 +158,12 @@ def build(sc, seed_override=None):
     SCALE[0] = float(np.min(box[:, 1] - box[:, 0])) / 2
     obj = Objective(sc["objective"], sc["maximize"], box)
     fp = FunctionProblem(obj, box, sc["maximize"])
+    level_problem = fp
+    if sc.get("wrap") == "counting":            # one counting wrapper shared by all levels (as minimize() shares its cutoff wrapper)
+        from pyhms.core.problem import EvalCountingProblem
+        level_problem = EvalCountingProblem(fp)
+    elif sc.get("wrap") == "cutoff":
+        level_problem = EvalCutoffProblem(fp, 10 ** 9)
     rng = random.Random(sc["seed"])
     levels = []
     for li, kind in enumerate(sc["kinds"]):
@@ -154,7 +176,7 @@ def build(sc, seed_override=None):
             lsc = FitnessSteadiness(max_deviation=1e-2, n_metaepochs=2)
         else:
             lsc = DontStop()
-        levels.append(make_level(kind, fp, lsc, rng, sc["leaf_generations"] if leaf else sc["generations"]))
+        levels.append(make_level(kind, level_problem, lsc, rng, sc["leaf_generations"] if leaf else sc["generations"]))
     far = float(np.min(box[:, 1] - box[:, 0])) / 20
     if sc["sprout"] == "simple":
         sprout = get_simple_sprout(far, level_limit=sc["level_limit"])
@@ -538,6 +560,26 @@ def check_reports(tree, sc, obj):
         raise Violation("C20", "summary() total evaluation count disagrees with the tree")
     if f"Number of demes: {len(all_demes(tree))}" not in lines:
         raise Violation("C20", "summary() deme count disagrees with the tree")
+    # per-level sections
+    sect = None
+    per_level = {}
+    for ln in lines:
+        if ln.startswith("Level "):
+            sect = int(ln.split()[1].rstrip(".")) - 1
+            per_level[sect] = {}
+        elif sect is not None and ln.startswith("Number of evaluations: "):
+            per_level[sect]["evals"] = int(ln.split(": ")[1])
+        elif sect is not None and ln.startswith("Number of demes: "):
+            per_level[sect]["demes"] = int(ln.split(": ")[1])
+    for l, lv in enumerate(tree._levels):
+        if not lv:
+            continue
+        got = per_level.get(l, {})
+        if got.get("evals") != sum(d.n_evaluations for d in lv):
+            raise Violation("C20", "summary() per-level evaluation count disagrees with the level's demes",
+                            dict(level=l + 1, reported=got.get("evals"), demes=sum(d.n_evaluations for d in lv), wrap=sc.get("wrap")))
+        if got.get("demes") != len(lv):
+            raise Violation("C20", "summary() per-level deme count disagrees with the tree", dict(level=l + 1, reported=got.get("demes"), demes=len(lv)))
     shown = [d for d in all_demes(tree) if d._sprout_seed is None or len(d._history) - 1 >= 1]
     tl = [ln for ln in t1.splitlines() if ln.strip()]
     if len(tl) != len(shown):
@@ -595,6 +637,23 @@ def check_reproducible(sc):
         k = next(i for i, (a, b) in enumerate(zip(f1, f2)) if a != b) if len(f1) == len(f2) else -1
         raise Violation("C14", "two runs with the same random_seed produced different trees",
                         dict(demes=(len(f1), len(f2)), first_difference=(f1[k][0] if k >= 0 else "number of demes")))
+
+
+def check_cross_process(sc_index, seed, tier):
+    """the same seeded configuration in two interpreter processes with different PYTHONHASHSEED"""
+    import hashlib
+    import subprocess
+    outs = []
+    for hs in ("1", "4242"):
+        p = subprocess.run([sys.executable, os.path.abspath(__file__), "FINGERPRINT", "--seed", str(seed), "--tier", tier, "--obligation", str(sc_index)],
+                           capture_output=True, text=True, env=dict(os.environ, PYTHONHASHSEED=hs), timeout=600)
+        outs.append([ln for ln in p.stdout.splitlines() if ln.startswith("FP ")])
+    if not outs[0] or not outs[1]:
+        return False
+    if outs[0] != outs[1]:
+        raise Violation("C14", "the same seeded configuration built different trees in two interpreter processes (PYTHONHASHSEED 1 vs 4242)",
+                        dict(scenario_index=sc_index, first=outs[0][0][:80], second=outs[1][0][:80]))
+    return True
 
 
 def check_twin(sc):
@@ -659,6 +718,12 @@ def main():
     want = a.pid
     t0 = time.time()
     scs = scenarios(a.seed, a.tier)
+    if want == "FINGERPRINT":
+        import hashlib
+        sc = scs[int(a.obligation)]
+        t, _ = run_plain(sc, 3)
+        print("FP " + hashlib.sha1(repr(fingerprint(t)).encode()).hexdigest() + f" demes={len(all_demes(t))}")
+        sys.exit(0)
     ran, nontrivial, samples = 0, 0, []
     try:
         if want in ("C01", "C02", "C03", "C04"):
@@ -667,6 +732,8 @@ def main():
             try:
                 if want == "C14":
                     check_reproducible(sc)
+                    if ran < 4:
+                        check_cross_process(scs.index(sc), a.seed, a.tier)
                     ran += 1
                     nontrivial += 1
                 elif want == "C13":
